@@ -85,6 +85,7 @@ impl Check for C01 {
             preexisting: true,
             clock_small: true,
             sampled_faults: true,
+            debris: true,
         };
         let run = run_conc(tape, &cfg, ctx.detail);
         let mut out = base_out(&run);
@@ -162,6 +163,7 @@ impl Check for C05 {
             preexisting: true,
             clock_small: true,
             sampled_faults: false,
+            debris: true,
         };
         let run = run_conc(tape, &cfg, ctx.detail);
         let mut out = base_out(&run);
@@ -256,6 +258,7 @@ impl Check for C06 {
             preexisting: true,
             clock_small: true,
             sampled_faults: false,
+            debris: true,
         };
         let run = run_conc(tape, &cfg, ctx.detail);
         let mut out = base_out(&run);
@@ -467,6 +470,7 @@ impl Check for C04 {
             preexisting: true,
             clock_small: true,
             sampled_faults: false,
+            debris: true,
         };
         // C04 is about the plain cache: force plain writer and no reader by
         // re-drawing until the configuration qualifies is not replay-friendly;
